@@ -640,6 +640,12 @@ type popKey struct {
 }
 
 func run(s *kernel.Sim, prop, cfg string) {
+	if cfg == "geofile" {
+		runGeoFile(s)
+
+		return
+	}
+
 	t := s.T
 	override := t.Chance(1, 4, "override-ttl")
 	minTTL := kernel.Pick(t, []time.Duration{10 * time.Second, 60 * time.Second}, "min-ttl")
